@@ -141,3 +141,34 @@ example : (heights exLP).toOption.map (fun m => [htOf m 0, htOf m 1, htOf m 2]) 
 example : ((execLongestPath exLP).toOption.map fun g => g.nodes.toList.map (·.layer)) = some [0, 1, 2] := by decide +kernel
 
 end Autog
+
+namespace Autog
+open LongestPath
+
+/-- C03 (iii) for LongestPath layering: every non-loop edge v → w of the state goes at least one band down -/
+theorem C11_longestpath_feasible (g g' : G) (rank : Nat → Nat) (hR : ∀ v w, w ∈ outNbrs g v → w ≠ v → rank w < rank v)
+    (hclosed : ∀ v, v ∉ g.nodeIds → outNbrs g v = []) (hwfE : ∀ v ∈ g.nodeIds, ∀ w ∈ outNbrs g v, w ∈ g.nodeIds)
+    (h : execLongestPath g = .ok g') (v w : Nat) (hv : v ∈ g.nodeIds) (hw : w ∈ outNbrs g v) (hne : w ≠ v) :
+    g'.layerOf v + 1 ≤ g'.layerOf w := by
+  unfold execLongestPath at h
+  simp only [bind, Except.bind] at h
+  cases hm : heights g with
+  | error e => rw [hm] at h; cases h
+  | ok memo =>
+    rw [hm] at h
+    simp only [pure, Except.pure, Except.ok.injEq] at h
+    subst h
+    have H := C11_heights g rank hR hclosed memo hm
+    have hge := H.ge v w hw hne
+    obtain ⟨_, _, hall⟩ := heightsLoop_spec g rank hR g.nodeIds [] memo (memoOK_nil _) hm
+    have hw' := hwfE v hv w hw
+    obtain ⟨hv1, hlv⟩ := hall v hv
+    obtain ⟨hw1, hlw⟩ := hall w hw'
+    have hvs : v < g.nodes.size := by simpa [G.nodeIds] using hv
+    have hws : w < g.nodes.size := by simpa [G.nodeIds] using hw'
+    simp only [htOf, hlv, hlw, Option.getD_some] at hge
+    simp only [G.layerOf, G.node, Array.getD_eq_getD_getElem?, Array.getElem?_mapIdx, hvs, hws, Array.getElem?_eq_getElem,
+      Option.map_some, Option.getD_some, hlv, hlw]
+    omega
+
+end Autog
